@@ -1,7 +1,7 @@
 (* C08 -- strict, passthrough and default modes differ only in how failure is reported.
    Observation codes: [0; v] = returned v, [1] = raised a library ValueError-derived error, [2] = anything else. *)
 From Curies.model Require Import Str PyData Trie Conv Query Val Answer Spec CheckQ.
-From Curies.proofs Require Import StrFacts IndexFacts QueryFacts LawFacts.
+From Curies.proofs Require Import StrFacts IndexFacts QueryFacts LawFacts CheckFacts PModelFacts.
 
 (* the seven (strict, passthrough) functions on strings *)
 Theorem C08_modes_str : forall d rs c s, mk_conv true d rs = Val c ->
@@ -39,3 +39,8 @@ Example C08_nonvacuous :
     answer c (QExpand [110;111]%N true false) = VList [VInt 1] /\
     answer c (QParseCurie [110;111]%N true) = VList [VInt 1].
 Proof. eexists. split; [vm_compute; reflexivity|]. vm_compute. auto. Qed.
+
+(* the executable predicate P_C08 accepts the model's own answers on every valid case *)
+Theorem C08_P_model : forall k, valid_q k = true -> eval_P 8 k (model_qobs k) = 1%Z.
+Proof. exact PModelFacts.P_C08_model. Qed.
+Print Assumptions C08_P_model.
